@@ -174,6 +174,28 @@ def check(run, db, tier):
     Jg = [[_rat(R.atom('J%d%d' % (i, j), real=False)) for j in range(2)] for i in range(2)]
     rec = [[sum((cr[k] * sig[k][i][j] for k in range(4)), zero) for j in range(2)] for i in range(2)]
     run.check(_eq(rec, Jg), 'C20.pauli', fc.qual, 'reconstruction', 'sum c_i sigma_i == J', 'sum c_i sigma_i = %s' % _txt(rec), fc.loc())
+    # a field of Jones matrices (leading axis of length 3, the 2x2 part last): every coefficient is one number per matrix of the field,
+    # the decomposition of that matrix
+    B = 3
+    Jbatch = lambda: [Arr((B, 2, 2), [dom.sym('K%d_%d%d' % (b, i, j), real=False) for b in range(B) for i in range(2) for j in range(2)])]
+    psb = returns(it.run(fc, args=Jbatch), fc)
+    csb = psb[0].value
+    if not (isinstance(csb, Tup) and len(csb.items) == 4):
+        raise AnalysisError('pauli_coefficients of a field of matrices does not return 4 coefficients')
+    if not all(isinstance(x, Arr) and all(dom.rat(y) is not None for y in x.data) for x in csb.items):
+        raise AnalysisError('pauli_coefficients of a field of matrices: the coefficients are not followed (%r)' % (csb.items[0],))
+    okb = all(x.shape == (B,) for x in csb.items)
+    detail = 'coefficient shapes %s for a field of shape (%d, 2, 2)' % ([x.shape for x in csb.items], B)
+    if okb:
+        for b in range(B):
+            Kb = [[_rat(R.atom('K%d_%d%d' % (b, i, j), real=False)) for j in range(2)] for i in range(2)]
+            recb = [[sum((as_rat(dom, csb.items[k].data[b], 'pauli coefficient') * sig[k][i][j] for k in range(4)), zero) for j in range(2)] for i in range(2)]
+            if not _eq(recb, Kb):
+                okb = False
+                detail = 'for matrix %d of the field, sum c_i sigma_i = %s' % (b, _txt(recb))
+                break
+    run.check(okb, 'C20.pauli', fc.qual, 'reconstruction, field of matrices', 'for J of shape (N, 2, 2) each coefficient has shape (N,) and decomposes its own matrix',
+              'pauli_coefficients of a field of Jones matrices: %s' % detail, fc.loc())
 
     # Mueller
     fm = db.func(M + 'jones_to_mueller')
